@@ -447,20 +447,20 @@ def _key(I, k):
     return b
 
 
-@summary("HashMap::get", "BTreeMap::get", "std::collections::HashMap::get")
+@summary("HashMap::get", "std::collections::HashMap::get")
 def _(I, mp, k):
     m = I.deref(mp)
     e = m.d.get(_key(I, k))
     return some(Ptr(Cell(e), (1,))) if e is not None else none()
-@summary("HashMap::contains_key", "BTreeMap::contains_key")
+@summary("HashMap::contains_key")
 def _(I, mp, k): return _key(I, k) in I.deref(mp).d
-@summary("HashMap::new", "BTreeMap::new", "<HashMap as Default>::default")
+@summary("HashMap::new", "<HashMap as Default>::default")
 def _(I): return MapObj()
-@summary("HashMap::insert", "BTreeMap::insert")
+@summary("HashMap::insert")
 def _(I, mp, k, v):
     m = I.deref(mp); kb = _key(I, k)
     old = m.d.get(kb)
     m.d[kb] = Agg([k, v], "tuple")
     return some(old.f[1]) if old is not None else none()
-@summary("HashMap::len", "BTreeMap::len")
+@summary("HashMap::len")
 def _(I, mp): return len(I.deref(mp).d)
